@@ -10,7 +10,7 @@ EXTENDS TocHostile, Json, TLCExt
 VARIABLE l
 TraceLog == ndJsonDeserialize("trace.ndjson")
 Why(ev) ==
-    IF ev.ep = "open" /\ ev.out \in {"ok", "error"} /\ ev.out \notin Allowed(ev.ents) THEN "accepted-unresolvable-hardlinks"
+    IF ev.ep = "open" /\ ev.out \in {"ok", "error"} /\ ev.out \notin Allowed(ev.ents) THEN "outcome-not-allowed"
     ELSE IF ev.ep = "open" /\ ev.out = "error" /\ Plain(ev.ents) THEN "rejected-plain-toc"
     ELSE ""
 TraceInit == l = 1 /\ toc = <<>>
